@@ -40,6 +40,8 @@ ASSUMPTIONS = [
     'reference decode tolerances: rvint 4 ulp relative; pack9 pos / lagr_pos 8 eps x max(|value|, BoxSize); pack9 vel 8 ulp; '
     'integers, density, aux exact',
     'an expected failure may be any exception type (ValueError observed)',
+    'a request using load_pos/load_vel that is rejected with a TypeError naming the keyword means the deprecated keyword was '
+    'removed: the request is skipped (counter requests_skipped_flag_removed), not reported',
 ]
 CHUNK = 1
 WORKERS = 12
@@ -227,7 +229,7 @@ def _run(case, d):
     probs, nt = [], []
     X = dict(reads=0, reads_returning_table=0, reads_required_to_raise=0, columns_compared=0, values_compared=0,
              corequest_comparisons=0, meta_checks=0, blsc_reads=0, tolerated_aux_only_reads=0, pack9_aux_reads=0,
-             pack9_aux_rows_not_particle_aligned=0, empty_table_reads=0)
+             pack9_aux_rows_not_particle_aligned=0, empty_table_reads=0, requests_skipped_flag_removed=0)
     X['reads_' + case['kind']] = 0
     errtypes = set()
     first = {}       # (colname, column) -> bytes of the first value seen
@@ -365,11 +367,23 @@ def _run(case, d):
                 sample = dict(case=case, request=what, columns=got, rows=len(t),
                               first_row={c: np.asarray(t[c][0]).tolist() for c in got}, meta_keys=sorted(meta))
 
+    def flag_removed(req, e):
+        """the deprecated, undocumented load_pos/load_vel keywords may legitimately be REMOVED (a TypeError that names the
+        keyword): such a request no longer exists in the API, so it is skipped and counted, never reported.  Flags that are
+        still accepted are checked as before."""
+        if ('lp' in req or 'lv' in req) and isinstance(e, TypeError) and ('load_pos' in str(e) or 'load_vel' in str(e)):
+            X['requests_skipped_flag_removed'] += 1
+            return True
+        return False
+
     def must_raise(req, why):
         X['reads_required_to_raise'] += 1
         try:
             t = call(None, req)
         except Exception as e:
+            if flag_removed(req, e):
+                X['reads_required_to_raise'] -= 1
+                return
             errtypes.add(type(e).__name__)
             nt.append(('raise', [c[0] for c in case['cols']], case['hdr'], n, case['dt'], repr(req.get('load'))))
             return
@@ -381,6 +395,8 @@ def _run(case, d):
             t = call(colname, req)
         except Exception as e:
             import traceback
+            if flag_removed(req, e):
+                return
             bad(f'{ct}:raised:{type(e).__name__}{n0}', f'{rdesc(colname, req)} raised {type(e).__name__}: {e}\n' +
                 ''.join(traceback.format_exception(e))[-700:])
             return
